@@ -8,6 +8,6 @@ go build -tags verif -o ../.build/vcheck-plain ./cmd/vcheck || exit 1
 for v in variants/build-*.sh; do
   [ -x "$v" ] || continue
   n=$(basename "$v" .sh); n=${n#build-}
-  "$v" verif "../.build/vcheck-$n" || exit 1
+  "$v" verif "$(cd .. && pwd)/.build/vcheck-$n" || exit 1
 done
 echo setup ok
